@@ -765,7 +765,7 @@ func init() {
 			}
 		}
 		meta := &Meta{Property: "C05", Seed: seed, Histogram: map[string]int{}, Shard: 800,
-			Rule: "every (in,style,explode) cell x {primitive, array of primitives, flat object} x leaf texts (integers incl. 0x/underscore/overflow, numbers, 12 boolean spellings, strings incl. every delimiter and the empty string) serialised by the OpenAPI table, plus absent and malformed-text streams; non-trivial = a value was serialised or a malformed text is present; distinct by JSON of the case"}
+			Rule: "every (in,style,explode) cell x {primitive, array of primitives, flat object} x leaf texts (integers incl. 0x/underscore/overflow, numbers, 12 boolean spellings, strings incl. every delimiter and the empty string) serialised by the OpenAPI table, plus absent and malformed-text streams; plus (Go side only) deepObject query parameters over object schemas of depth <= 3 with primitive, array, nested-object and array-of-objects members, their values serialised as name[a][0][b]=v next to keys of other parameters whose names extend or contain the name; non-trivial = a value was serialised or a malformed text is present; distinct by JSON of the case"}
 		seen := map[string]bool{}
 		var terms []string
 		for i := range cases {
@@ -790,6 +790,25 @@ func init() {
 			}
 			meta.Histogram[fmt.Sprintf("decode_err=%d", o.Err)]++
 			meta.Histogram[fmt.Sprintf("valid=%d", o.Valid)]++
+		}
+		// deepObject parameters (nested objects, arrays, arrays of objects): Go-side round trip
+		if replay == "" {
+			dr := NewRng(seed ^ 0x5deeb0b1ec7)
+			nd := n / 3
+			for i := 0; i < nd; i++ {
+				dc := deepRandom(dr)
+				sig, detail := runDeep(&dc)
+				meta.Histogram["deepObject "+dc.features()]++
+				if dc.Value == nil {
+					meta.Histogram["deepObject absent"]++
+				}
+				if sig != "" {
+					meta.Histogram["oracle:"+sig]++
+					meta.GoViolation = append(meta.GoViolation, map[string]any{"signature": sig, "cases": []any{dc}, "go_observation": detail,
+						"judgement": "deepObject round trip on the Go side: " + sig + " " + detail})
+				}
+			}
+			meta.Histogram["deepObject cases"] = nd
 		}
 		meta.NCases = len(cases)
 		meta.Files = writeCases(outDir, "From KV Require Import Model.Base Model.Json Model.Schema Model.Request Model.ParamCodec Spec.ParamSpec Exec.C05Exec.", "c05case", "judge", terms, meta.Shard)
